@@ -2,7 +2,7 @@
    Everything here is executable Gallina; no proofs. *)
 From Coq Require Import List NArith ZArith String Bool.
 Import ListNotations.
-From UV Require Import Py.Val Py.Str Py.Utf8 Py.Regex Py.UrlLib Gen.Patterns Ural.TrieDict Ural.Utils Ural.HostnameTrieSet Ural.SuffixTrie Ural.Tld Proofs.SuffixTrieFacts Py.Pct Ural.Quote Spec.C14 Gen.Tables Ural.FormatUrl Ural.InferRedirection Ural.Lru Ural.IsUrl.
+From UV Require Import Py.Val Py.Str Py.Utf8 Py.Regex Py.UrlLib Gen.Patterns Ural.TrieDict Ural.Utils Ural.HostnameTrieSet Ural.SuffixTrie Ural.Tld Proofs.SuffixTrieFacts Py.Pct Ural.Quote Spec.C14 Gen.Tables Ural.FormatUrl Ural.InferRedirection Ural.Lru Ural.IsUrl Ural.Predicates.
 Open Scope string_scope.
 
 Definition opt_wrap (o : option val) : val :=
@@ -427,6 +427,30 @@ Definition do_urls_from_text (arg : val) : val :=
   | _ => vbad
   end.
 
+(* ---------------- site predicates (C18) ---------------- *)
+Definition on_parsed (e : env) (u : str) (f : SplitResult -> res bool) : val :=
+  match urlsplit e u with Ok p => vres VB (f p) | Exc x => VErr (exn_name x) end.
+
+Definition do_predicates (arg : val) : val :=
+  match arg with
+  | VL [ev; VL urls] =>
+      let e := env_of ev in
+      match hts_build e YOUTUBE_DOMAINS hts_empty, hts_build e SHORTENER_DOMAINS hts_empty,
+            hts_build e (SHORTENER_DOMAINS ++ SHOULD_RESOLVE_DOMAINS) hts_empty with
+      | Ok yt, Ok sh, Ok sr =>
+          VL (map (fun u =>
+                VL [VB (is_facebook_url u); on_parsed e u is_facebook_parsed;
+                    VB (is_twitter_url u); on_parsed e u is_twitter_parsed;
+                    VB (is_instagram_url u); on_parsed e u is_instagram_parsed;
+                    VB (is_telegram_url u); on_parsed e u is_telegram_parsed;
+                    vres VB (is_youtube_url e yt u); vres VB (is_shortened_url e sh u); vres VB (should_resolve e sr u);
+                    vres VB (is_homepage e u); vres VB (could_be_html e u);
+                    vres vstr_opt (get_hostname e u); vres VB (has_special_host e u)]) (strs_of urls))
+      | _, _, _ => VErr (lit "TrieBuildFailed")
+      end
+  | _ => vbad
+  end.
+
 (* ---------------- dispatch ---------------- *)
 Definition table : list (str * (val -> val)) :=
   [ (lit "triedict", do_triedict);
@@ -447,7 +471,8 @@ Definition table : list (str * (val -> val)) :=
     (lit "lru_misc", do_lru_misc);
     (lit "lrutrie", do_lrutrie);
     (lit "is_url", do_is_url);
-    (lit "urls_from_text", do_urls_from_text) ].
+    (lit "urls_from_text", do_urls_from_text);
+    (lit "predicates", do_predicates) ].
 
 Fixpoint find_fn (name : str) (l : list (str * (val -> val))) : option (val -> val) :=
   match l with
